@@ -128,6 +128,7 @@ func (c14) Gen(r *rand.Rand, tier string, idx int) *core.Plan {
 	nw, nr := 1+r.IntN(3), 1+r.IntN(3)
 	p.World["procs"] = int64(r.IntN(2))
 	p.World["tasks"] = int64(nw + nr)
+	p.World["sameNumber"] = int64(r.IntN(4) / 3)
 	for w := 0; w < nw; w++ {
 		for i, n := 0, 1+r.IntN(3); i < n; i++ {
 			p.Ops = append(p.Ops, newSet(w, urls[r.IntN(nURL)], c14Size(r)))
@@ -214,11 +215,18 @@ func (l c14) Exec(env *core.Env) *core.Result {
 			continue
 		}
 		v := &value{}
-		b := world.NewCRL(ca, op.Int(0), now.Add(-time.Hour), now.Add(87600*time.Hour), nil, false, int(op.Int(1)))
+		// every stored bundle is a different byte string. Usually they also carry different CRL numbers; in a share of
+		// the plans all of them carry the SAME number (a re-issued CRL, a CA that does not increment): what was
+		// stored is identified by its bytes, never by its number
+		number, this := op.Int(0), now.Add(-time.Hour)
+		if p.W("sameNumber") == 1 {
+			number, this = 7, now.Add(-time.Hour-time.Duration(op.Int(0))*time.Second)
+		}
+		b := world.NewCRL(ca, number, this, now.Add(87600*time.Hour), nil, false, int(op.Int(1)))
 		v.bundle = &corecrl.Bundle{BaseCRL: b}
 		v.base = b.Raw
 		if op.Int(2) == 1 {
-			d := world.NewCRL(ca, op.Int(0), now.Add(-time.Hour), now.Add(87600*time.Hour), nil, true, 0)
+			d := world.NewCRL(ca, number, this, now.Add(87600*time.Hour), nil, true, 0)
 			v.bundle.DeltaCRL = d
 			v.delta = d.Raw
 		}
@@ -322,7 +330,10 @@ func (l c14) Exec(env *core.Env) *core.Result {
 				if err != nil {
 					e.Outcome, e.Err = "err", err.Error()
 					if t.FaultsSeen == before {
-						res.Violate("C14/set-failed-without-fault", op.Str(0), "Set returned %v with no injected fault", err)
+						// the statement is about what READS may yield; a store that reports failure (say, because
+						// another writer is at work) has promised nothing - counted, not a violation. In the history
+						// it is an operation that may or may not have taken effect, like a faulted one.
+						res.Probe("set_failed_without_injected_fault")
 					}
 				} else {
 					e.Outcome = "ok"
@@ -342,14 +353,20 @@ func (l c14) Exec(env *core.Env) *core.Result {
 				switch {
 				case err == nil && b != nil && b.BaseCRL != nil:
 					e.Outcome = "hit"
-					if b.BaseCRL.Number != nil {
-						e.Val = b.BaseCRL.Number.Int64()
-					}
-					v := values[e.Val]
 					var gotDelta []byte
 					if b.DeltaCRL != nil {
 						gotDelta = b.DeltaCRL.Raw
 					}
+					if b.BaseCRL.Number != nil {
+						e.Val = b.BaseCRL.Number.Int64()
+					}
+					for _, id := range sortedInt64Keys(values) { // identify what was read by its bytes
+						if cand := values[id]; bytes.Equal(cand.base, b.BaseCRL.Raw) && bytes.Equal(cand.delta, gotDelta) {
+							e.Val = id
+							break
+						}
+					}
+					v := values[e.Val]
 					if v == nil || !bytes.Equal(v.base, b.BaseCRL.Raw) || !bytes.Equal(v.delta, gotDelta) {
 						res.Violate("C14/get-bundle-not-stored-by-any-writer", op.Str(0), "Get returned a bundle (number %d, base %d B, delta %d B) that no Set stored", e.Val, len(b.BaseCRL.Raw), len(gotDelta))
 						e.Val = -1
@@ -567,4 +584,13 @@ func sortedKeys2[T any](m map[string]T) []string {
 	}
 	sort.Strings(r)
 	return r
+}
+
+func sortedInt64Keys[V any](m map[int64]V) []int64 {
+	ks := make([]int64, 0, len(m))
+	for k := range m {
+		ks = append(ks, k)
+	}
+	sort.Slice(ks, func(i, j int) bool { return ks[i] < ks[j] })
+	return ks
 }
